@@ -133,6 +133,14 @@ def _x2v(ctx):
     return r
 
 
+def _x11(ctx):
+    from .rules import bounds
+    r, nfield = bounds.rule_X11(ctx, [(NSP + 'GARS::Forward', NSP + 'GARS::Reverse'),
+                                      (NSP + 'Georef::Forward', NSP + 'Georef::Reverse')])
+    r.floor('paired fields', nfield, 2)
+    return r
+
+
 def _t3(ctx, classes, floor):
     from .rules import tab
     r, n = tab.rule_T3(ctx, classes)
@@ -174,7 +182,7 @@ def _c18(ctx):
     x7r, nsite, nproved = relidx.rule_X7r(ctx, ('src/GARS.cpp', 'src/Georef.cpp', 'src/OSGB.cpp', 'src/Geohash.cpp'))
     x7r.floor('subscript sites', nsite, 20)
     x7r.floor('sites proved on every path', nproved, 18)
-    return _exc_rules(ctx, 'C18') + [x7r, _w1(ctx, 'C18', 7), _x10(ctx), _x9(ctx, ('src/Geohash.cpp', 'src/GARS.cpp', 'src/Georef.cpp', 'src/OSGB.cpp'), 4, 80), _t3(ctx, {'Geohash', 'GARS', 'Georef', 'OSGB'}, 22),
+    return _exc_rules(ctx, 'C18') + [x7r, _w1(ctx, 'C18', 7), _x10(ctx), _x11(ctx), _x9(ctx, ('src/Geohash.cpp', 'src/GARS.cpp', 'src/Georef.cpp', 'src/OSGB.cpp'), 4, 80), _t3(ctx, {'Geohash', 'GARS', 'Georef', 'OSGB'}, 22),
                                       _x7(ctx, ('src/Geohash.cpp', 'src/GARS.cpp', 'src/Georef.cpp', 'src/OSGB.cpp'), 25, 20, 10)]
 
 
